@@ -1,0 +1,31 @@
+//go:build verif
+
+// Contracts for package schemabuilder, read by /verif/engine (govc). Comment-only.
+package schemabuilder
+
+//@ pred cursorAt(edges []Edge, cursor string, k int) = 0 <= k && k < len(edges) && edges[k].Cursor == cursor && (forall j int :: 0 <= j && j < k ==> edges[j].Cursor != cursor)
+//@ pred noCursor(edges []Edge, cursor string) = forall k int :: 0 <= k && k < len(edges) ==> edges[k].Cursor != cursor
+//@ pred idx(edges []Edge, p *string, a int) = ((p == nil || noCursor(edges, deref(p))) && a == -1) || (p != nil && cursorAt(edges, deref(p), a))
+//@ pred winIs(r []Edge, edges []Edge, lo int, hi int) = len(r) == hi - lo && (forall k int :: 0 <= k && k < hi - lo ==> r[k] == edges[lo+k])
+
+//@ func safeInt64Ptr
+//@   assigns nothing
+//@   ensures (i == nil ==> result == 0) && (i != nil ==> result == deref(i))
+
+//@ func getCursorIndex
+//@   assigns nothing
+//@   ensures result == -1 ==> noCursor(edges, cursor)
+//@   ensures result != -1 ==> cursorAt(edges, cursor, result)
+//@   loop 1 invariant -1 <= rangeindex && rangeindex < len(edges)
+//@   loop 1 invariant forall k int :: 0 <= k && k <= rangeindex ==> edges[k].Cursor != cursor
+//@   loop 1 decreases len(edges) - rangeindex
+
+// The window left by the cursors: after the element named by `after` (if it is in the list), up to
+// but excluding the element named by `before` (if it is in what remains). elemsBefore (result2):
+// elements exist before the one named by after; elemsAfter (result1): elements exist beyond the one
+// named by before - in the list the caller passed in.
+//@ func applyCursorsToAllEdges
+//@   assigns nothing
+//@   ensures forall a int, b int :: idx(edges, after, a) && idx(edges[a+1:], before, b) ==> winIs(result0, edges, a+1, ite(b == -1, len(edges), a+1+b))
+//@   ensures forall a int, b int :: idx(edges, after, a) && idx(edges[a+1:], before, b) ==> (result2 <==> a > 0)
+//@   ensures forall a int, b int :: idx(edges, after, a) && idx(edges[a+1:], before, b) ==> (result1 <==> (b != -1 && a+1+b < len(edges)-1))
